@@ -125,6 +125,11 @@ class Flow(object):
                 snames = pscope.names
                 if isinstance(self.scope, ClassScope):
                     return MergedDict(snames)
+                elif isinstance(self.scope, SourceScope):
+                    # module level names are looked up dynamically: a builtin stays
+                    # visible until the module rebinds it, and names bound through
+                    # a global statement of some function are module names too
+                    return MergedDict(self.scope._global_names, snames)
                 else:
                     outer_names = set(snames).difference(self.scope.locals)
                     return {n: snames[n] for n in outer_names}
